@@ -276,6 +276,20 @@ def tx_mutations(rng, t, is_cb):
             if c[3]:
                 c[3].append([])
         m('dup-input', dup)
+
+        def dup_interleaved(c):
+            h = c[1][0][0]
+            c[1][:] = [[h, 0, b'', 0], [h, 1, b'\x51', 1], [h, 0, b'\x52', 2]]        # (h,0) (h,1) (h,0)
+            if c[3]:
+                c[3] = [[], [], []]
+        m('dup-input-interleaved', dup_interleaved)
+
+        def dup_far(c):
+            h = c[1][0][0]
+            c[1][:] = [[h, 5, b'', 0], [W.rb(rng, 32), 5, b'', 0], [h, 6, b'', 0], [h, 5, b'\x01\x01', 9]]
+            if c[3]:
+                c[3] = [[], [], [], []]
+        m('dup-input-far', dup_far)
         m('same-hash-other-n', lambda c: (c[1].append([c[1][0][0], c[1][0][1] + 1, b'', 0]), c[3] and c[3].append([])))
         m('same-n-other-hash', lambda c: (c[1].append([W.rb(rng, 32), c[1][0][1], b'', 0]), c[3] and c[3].append([])))
         m('null-prevout', lambda c: (c[1].append([NULL_HASH, 0xffffffff, b'\x51\x51', 0]), c[3] and c[3].append([])))
